@@ -8,14 +8,16 @@ Definition unquoted_key : parser bytes :=
   unchecked_utf8 30 (take_while1 (in_class UNQUOTED_CHAR)).
 
 (* key.rs: simple_key — dispatch on peek(any): QUOTATION_MARK => basic_string, APOSTROPHE => literal_string,
-   otherwise unquoted_key; then .with_span() *)
+   otherwise unquoted_key; then .context(Label("key")) around the whole dispatch (neither peek(any) on the
+   empty input nor unquoted_key on a byte no key starts with has a context of its own); then .with_span() *)
 Definition simple_key : parser (raw * bytes) :=
   pmap (fun '(k, sp) => (raw_with_span sp, k))
     (with_span
-       (b <- peek any ;;
-        if byte_eqb b QUOTATION_MARK then basic_string
-        else if byte_eqb b APOSTROPHE then literal_string
-        else unquoted_key)).
+       (context
+          (b <- peek any ;;
+           if byte_eqb b QUOTATION_MARK then basic_string
+           else if byte_eqb b APOSTROPHE then literal_string
+           else unquoted_key))).
 
 Definition key_part : parser key :=
   pre <- span_ ws ;;
